@@ -179,6 +179,8 @@ PROPS["C09"] = dict(
           "checked after every operation. Non-trivial = a bulk operation touches >= 2 entries. Distinct = distinct case."),
     assumptions=["node clock strictly increasing (one writer at a time)", "visible state = All()/Get('#') through the public read API"],
     runs=[
+        # bulk removals of every size 1..130 (thorough 600): a session's subscriptions, a failed peer's sessions and subscriptions
+        dict(name="bulk", pkg="c09", run="TestBulkSizes", timeout=dict(quick=300, thorough=1800)),
         # the broadcasts of 70 000 / 300 000 changes of each kind carry the changes: replicas fed with them list what the reference table lists (package c08)
         dict(name="volume", pkg="c08", run="TestVolume", timeout=dict(quick=400, thorough=2400)),
         dict(name="regress", pkg="c09", run="TestRegress"),
@@ -666,15 +668,15 @@ PROPS["C20"] = dict(
 # Later additions to the checks (rounds 7 and 8), appended to the manifest text of the property
 ADDITIONS = {
     "C01": "Run unsuback: at the very moment a session has received its UNSUBACK (hook on the fake connection) another client publishes and is acknowledged: the publish is not delivered to the session that left (unless a remaining filter matches) and is delivered to a session still subscribed.",
-    "C13": "Run silent: the dying session sends the first 1..n-1 bytes of a PUBLISH, SUBSCRIBE or UNSUBSCRIBE and then nothing, without closing; when its keep-alive allowance has passed (virtual clock) the connection is closed, the will reaches the watchers on 1-2 nodes exactly once (retained if asked), and nothing of the unfinished packet has any effect.",
+    "C13": "Run silent: the dying session sends the first 1..n-1 bytes of a PUBLISH, SUBSCRIBE or UNSUBSCRIBE and then nothing, without closing; when its keep-alive allowance has passed (virtual clock) the connection is closed, the will reaches the watchers on 1-2 nodes exactly once (retained if asked), and nothing of the unfinished packet has any effect. Generator: 1-3 further sessions on the dying session's node with byte-identical wills (each session's will is its own).",
     "C14": "Run panic (package c05): a destination whose write panics; the unchanged broker dies (nothing acknowledged), a survivor must not acknowledge.",
     "C02": "Run suback: a publish from another connection sent, and acknowledged, at the very moment the subscriber has received its SUBACK (hook on the fake connection) must reach that subscriber (1-3 filters, 0-60 retained messages replayed in between, QoS 1/2).",
     "C03": "Run ackatreceipt: 1-3 subscribers answer every PUBLISH / PUBREL the instant they hold it, from a hook that runs before the broker's write of that packet returns (and waits until the broker has consumed the answer); when afterwards every deadline passes twice nothing is sent again, every message was received once and all 65535 identifiers are free.",
     "C04": "Run overlap: 1728 enumerated scenarios of a second sweep that overlaps the callbacks of a running one (from another goroutine or from inside a callback) with an entry registered in between; the second sweep must expire it.",
-    "C05": "Runs panic / panicrandom: the failing write panics instead of returning an error; the case runs in a child process, which either dies (nothing acknowledged) or survives and is judged by the same oracle.",
+    "C05": "Runs panic / panicrandom: the failing write panics instead of returning an error; the case runs in a child process, which either dies (nothing acknowledged) or survives and is judged by the same oracle. Step sub: a subscriber appears on some node between two publishes (every topic freshly published on at that moment); the destinations of the next publish include that node.",
     "C07": "Run lifetime: a node that has held 70 000 / 300 000 topic names (most cleared again) must still retain, replay and clear a publish on a new name, on the writer and on a mirror; checkpoints around powers of 2 and 10. Run puback: at the very moment a publisher has received the acknowledgement of a retained publish (or clear) another client subscribes: it is sent the new value (nothing older after a clear).",
     "C08": "Run volume: 70 000 / 300 000 changes of each kind made on three origins, delivered in order, reversed and shuffled (batches, duplicates) to three replicas that must all list what the reference table lists.",
-    "C09": "Run fingerprints: among 200 000 / 1 500 000 real broadcasts, pairs of different messages that agree under one of 12 32-bit fingerprints (CRC-32 x3, FNV, Adler, truncated MD5/SHA-1/SHA-256, ...) are found by birthday search and delivered to a fresh receiver adjacent, reversed, with duplicates and 300 messages apart; the receiver must list what the reference table of the decoded messages lists.",
+    "C09": "Run fingerprints: among 200 000 / 1 500 000 real broadcasts, pairs of different messages that agree under one of 12 32-bit fingerprints (CRC-32 x3, FNV, Adler, truncated MD5/SHA-1/SHA-256, ...) are found by birthday search and delivered to a fresh receiver adjacent, reversed, with duplicates and 300 messages apart; the receiver must list what the reference table of the decoded messages lists. Run bulk: bulk removals of every size 1..130 (thorough 600) - a session's subscriptions, a failed peer's sessions and subscriptions - origin vs. mirror. Run volume (package c08): 70 000 changes of each kind.",
     "C10": "Run sizes: every snapshot size from 1 to 1100 (thorough 4200) sessions, twice as many subscriptions, half as many retained messages (with removals), merged by a fresh node and by a node that lives on snapshots alone. Run big: one snapshot of 70 000 / 300 000 entries of each kind.",
     "C12": "Run simultaneous: 2-24 connections presenting one identifier at the same moment on a node knowing 0 / 2000 / 20000 sessions: all are established; after each has pinged exactly one is served, the one the identifier resolves to. Run connack: at the very moment the new connection has received its CONNACK the earlier session sends a PINGREQ: it is not answered and that connection is closed; the identifier resolves to the new session, whose own PINGREQ is answered (chains of 1-4 takeovers).",
     "C15": "Run longlogs: logs growing past 10 000 (thorough 100 000) entries with the consumer killed before, at and after the boundary while a backlog is ahead of it, then restarted.",
